@@ -738,6 +738,9 @@ func runC18(c *gen.Ctx) error {
 		}
 	}
 
+	// ---- the reference server's own status trailers, and the real server end to end (c18srv.go)
+	c18SrvGen(c)
+
 	// ---- percent-encoding: every byte, pairs, random strings
 	for b := 0; b < 256; b++ {
 		c.Do("percent", c18PercentIn{gen.Hex([]byte{byte(b)})})
